@@ -8,8 +8,10 @@ mod rng;
 mod gen;
 mod c01;
 mod c02;
+mod c03;
 mod c06;
 mod c07;
+mod c08;
 mod c09;
 mod c15;
 mod c19;
@@ -29,8 +31,10 @@ fn exec_line(line: &str) -> String {
         match prop.as_str() {
             "C01" => c01::exec(&op, &a),
             "C02" => c02::exec(&op, &a),
+            "C03" => c03::exec(&op, &a),
             "C06" => c06::exec(&op, &a),
             "C07" => c07::exec(&op, &a),
+            "C08" => c08::exec(&op, &a),
             "C09" => c09::exec(&op, &a),
             "C15" => c15::exec(&op, &a),
             "C19" => c19::exec(&op, &a),
@@ -77,8 +81,10 @@ fn main() {
             match prop {
                 "C01" => c01::generate(&mut rng, tier, shard, nshards, &mut emit),
                 "C02" => c02::generate(&mut rng, tier, shard, nshards, &mut emit),
+                "C03" => c03::generate(&mut rng, tier, shard, nshards, &mut emit),
                 "C06" => c06::generate(&mut rng, tier, shard, nshards, &mut emit),
                 "C07" => c07::generate(&mut rng, tier, shard, nshards, &mut emit),
+                "C08" => c08::generate(&mut rng, tier, shard, nshards, &mut emit),
                 "C09" => c09::generate(&mut rng, tier, shard, nshards, &mut emit),
                 "C15" => c15::generate(&mut rng, tier, shard, nshards, &mut emit),
                 "C19" => c19::generate(&mut rng, tier, shard, nshards, &mut emit),
